@@ -270,6 +270,23 @@ def cycles(ctx, nh, nm, n, max_spawn=3):
     ctx.reach()
 
 
+def two_pools(ctx):
+    """two factory pools alive at once share nothing"""
+    wa = World(ctx, 2, 0)
+    kb = [Kid(50, demand=ctx.num("bd0"), supply=ctx.num("bs0"), utilisation=ctx.num("bu0"), allocation=ctx.num("ba0"), name="b0")]
+    ctx.assume(And(kb[0].demand > 0, kb[0].supply >= 0, kb[0].utilisation >= 0, kb[0].allocation >= 0))
+    pb = FactoryPool(*kb, factory=lambda: None, interval=1)
+    ta = ctx.num("target_a")
+    ctx.assume(ta >= 0)
+    wa.pool._shrink(ta)
+    ctx.reach()
+    ctx.require(len(pb.children) == 1 and pb.children[0] is kb[0], "a pool lists only its own children")
+    ctx.require(pb.supply == kb[0].supply, "a pool's supply is the sum over its own children")
+    _check_aggregates(ctx, wa)
+    keep = (wa, kb)
+    del keep
+
+
 def bad_factory(ctx):
     """a factory child without demand is refused"""
     d = ctx.num("d")
@@ -310,6 +327,10 @@ def tasks(tier, seed):
     for nh in range(0, 3 if tier == "quick" else 4):
         out.append(Task(MOD, "cycles", dict(nh=nh, nm=1 if nh < 3 else 0, n=1), weight=8 ** nh,
                         shards=1 if nh < 2 else (4 if nh == 2 else 16)))
+    if tier == "quick":
+        # state must not be carried from one cycle to the next: a small two-cycle history in quick, too
+        out.append(Task(MOD, "cycles", dict(nh=1, nm=0, n=2, max_spawn=1), weight=300, shards=16))
+    out.append(Task(MOD, "two_pools", model="R", weight=5))
     if tier == "thorough":
         out.append(Task(MOD, "cycles", dict(nh=0, nm=0, n=2, max_spawn=2), weight=50, shards=4))
         out.append(Task(MOD, "cycles", dict(nh=1, nm=0, n=2, max_spawn=2), weight=500, shards=48))
